@@ -79,6 +79,12 @@ CHECKS["C14"] = {
     "text": "consolidate_chunks (1-2 dims quick, 3 thorough; sizes up to 10**6, budgets up to 2**40; chunk_limits None/-1/explicit): ValueError iff the chunks exceed max_mem, otherwise result within [chunks, upper bound], aligned with the source chunks, within max_mem, and no AssertionError. Both multistage planners: explicit ValueError iff the request is infeasible, otherwise a non-empty chained stage list whose every read/intermediate/write chunk fits max_mem, intermediate = min(read, write), last write chunks a multiple of the target chunks (or the full extent), regular variant aligned with what the previous stage wrote - 1-d fully symbolic (sizes <= 200/1000), 2-d incl. reachable multi-stage plans with geometry forked by value and symbolic budgets. rechunk_plan/_rechunk_plan/rechunk on metadata arrays: copy ops start at the array's chunking, are chained, end at the requested chunking; data part of every accepted copy fits the derived budget. Termination: AST side condition (no while loops, finite for-loops, single guarded recursion) + per-path step budget.",
     "note": "int/int true division modelled as exact rationals (lemma: operands < 2**53); np.geomspace = real NumPy on value-forked endpoints; 2-d obligations fork geometry by value because products of two symbolic extents did not finish in z3 (>600 s); >3 dims, ExcessiveIOWarning heuristics and multspace's docstring claim (multspace(40,40,2) == [1,39], an efficiency glitch recorded in DESIGN.md) are outside.",
 }
+CHECKS["C07"] = {
+    "engine": "sx",
+    "technique": "bounded symbolic execution (z3) of the real async_map_dag/async_map_unordered/DAG traversal on scheduler stubs: completion subsets, interleavings and clock are solver variables; barrier asserted over the event trace",
+    "text": "For real finalized plans (chain with unequal task counts, diamond, independent branches, multi-output op, implicit rechunk; optimize on/off) and every schedule within the bound (which pending futures complete at each wake-up, in which order they are seen, which generation-mate is polled next, clock increments; compute_arrays_in_parallel on/off, batch_size None/1/2, backups on/off): every task is submitted only after a successful completion of every task of every operation producing its inputs and of every create-arrays task, and an operation's stream ends only when all its tasks completed. SingleThreadedExecutor.execute_dag: same, for every subset of operations marked computed.",
+    "note": "asyncio.wait/Future/time/aiostream replaced by stubs/sched.py (validated against a real event loop at check start); schedules with more than the stated number of 'still running' observations and task failures (C08) are outside; a task is taken to read its inputs between submit and complete.",
+}
 for p in PENDING:
     if p not in CHECKS:
         NOT_APPLICABLE[p] = "check not built yet in this revision (planned, see DESIGN.md §5)"
